@@ -118,7 +118,7 @@ pub fn mutant(rng: &mut Rng, srv: &[u8]) -> Vec<u8> {
     let with_srv = rng.chance(1, 3);
     let base = valid_request(rng, p, size, if with_srv { Some(srv) } else { None });
     let mut b = base.clone();
-    match rng.below(16) {
+    match rng.below(17) {
         0 => { b.truncate(rng.below(b.len() as u64) as usize); }                       // truncated
         1 => { let extra = rng.below(600) as usize + 1; let e = rng.bytes(extra); b.extend(e); } // extended
         2 => { b.truncate(1020); }                                                      // just below the minimum
@@ -134,6 +134,11 @@ pub fn mutant(rng: &mut Rng, srv: &[u8]) -> Vec<u8> {
         7 => { let i = rng.below(40.min(b.len() as u64)) as usize; b[i] = rng.below(256) as u8; }  // header byte
         8 => { let off = if p == Proto::Ietf { 12 } else { 0 }; let w = *rng.pick(&[0u32, 1, 3, 5, 0xffff_ffff, 1025]); b[off..off + 4].copy_from_slice(&w.to_le_bytes()); } // tag count
         9 => { let off = if p == Proto::Ietf { 16 } else { 4 }; let w = *rng.pick(&[1u32, 2, 0xffff_fffc, 2000, 7]); b[off..off + 4].copy_from_slice(&w.to_le_bytes()); } // first offset
+        15 => { // an offset just inside / at the end of the whole message (beyond the value area)
+            let off = if p == Proto::Ietf { 16 } else { 4 };
+            let w = (b.len() - if p == Proto::Ietf { 12 } else { 0 }) as u32 - 4 * rng.below(6) as u32;
+            b[off..off + 4].copy_from_slice(&w.to_le_bytes());
+        }
         10 => { let n = rng.range(1, 3); for _ in 0..n { let i = rng.below(b.len() as u64) as usize; b[i] ^= 1 << rng.below(8); } }
         11 => { let l = *rng.pick(&[0usize, 1, 4, 8, 1023, 1024, 1028, 1500, 1501, 4096, 65_507]); b = rng.bytes(l); }
         12 => { let l = rng.range(1024, 1500) as usize; b = rng.bytes(l); }
@@ -414,7 +419,8 @@ pub fn drive_leak(ctx: &mut Ctx, rng: &mut Rng, thorough: bool) {
 /// record, error value and panic message they produce is scanned for the seed
 pub fn drive_cfgleak(ctx: &mut Ctx, rng: &mut Rng, workdir: &str) {
     use roughenough::config::{is_valid_config, make_config};
-    let seeds: Vec<Vec<u8>> = vec![unhex(DEFAULT_SEED), rng.bytes(32), rng.bytes(32)];
+    // the last seed consists of decimal digits only (YAML reads such an unquoted scalar as a number, not a string)
+    let seeds: Vec<Vec<u8>> = vec![unhex(DEFAULT_SEED), rng.bytes(32), rng.bytes(32), unhex("3141592653589793238462643383279502884197169399375105820974944592")];
     std::fs::create_dir_all(workdir).ok();
     for seed in seeds {
         let secrets = rig::Secrets::new(&seed);
@@ -524,6 +530,20 @@ pub fn drive_health(ctx: &mut Ctx, rng: &mut Rng, path: &str, thorough: bool) ->
     replayed
 }
 
+/// C16 (effective batch size): servers configured with batch sizes that are not powers of two receive bursts larger than
+/// the batch; no signed root may cover more requests than the configured batch size
+pub fn drive_batchcfg(ctx: &mut Ctx, rng: &mut Rng, thorough: bool) {
+    let sizes: Vec<u8> = if thorough { vec![1, 2, 3, 5, 6, 7, 9, 12, 24, 33, 48, 63, 64] } else { vec![1, 3, 5, 12, 48, 63] };
+    for b in sizes {
+        let mut rig = match new_section(ctx, cfg(b, 0, 0, 70)) { Some(r) => r, None => continue };
+        for p in [Proto::Google, Proto::Ietf] {
+            let n = (2 * b as usize + 1).min(140);
+            let sends: Vec<(usize, Vec<u8>)> = (0..n).map(|i| (i % 70, valid_request(rng, p, 1024, None))).collect();
+            run_round(ctx, &mut rig, sends, vec![], false);
+        }
+    }
+}
+
 /// C17 wiring: traffic mixes with both recorder kinds
 pub fn drive_stats(ctx: &mut Ctx, rng: &mut Rng, thorough: bool) {
     for (k, client_stats) in [false, true, false, true].iter().enumerate() {
@@ -554,6 +574,15 @@ pub fn drive_slowdrain(ctx: &mut Ctx, rng: &mut Rng, thorough: bool) {
         run_round_at(ctx, &mut rig, sends, inj, false);
         rig.recv_sleep_ms.set(0);
         if !thorough { break; }
+    }
+    // the same request sent again more than a radius later (a retransmission): its response must state the clock of ITS batch
+    if let Some(mut rig) = new_section(ctx, cfg(8, 0, 0, 4)) {
+        let rg = valid_request(rng, Proto::Google, 1024, None);
+        let ri = valid_request(rng, Proto::Ietf, 1024, None);
+        run_round(ctx, &mut rig, vec![(0, rg.clone()), (1, ri.clone())], vec![], false);
+        std::thread::sleep(std::time::Duration::from_millis(5600));
+        run_round(ctx, &mut rig, vec![(0, rg.clone())], vec![], false);
+        run_round(ctx, &mut rig, vec![(1, ri.clone())], vec![], false);
     }
 }
 
@@ -592,6 +621,7 @@ pub fn record(driver: &str, seed: u64, tier: &str, out_path: &str, inp: &str) {
             "stats" => drive_stats(&mut ctx, &mut rng, thorough),
             "mixed" => drive_mixed(&mut ctx, &mut rng),
             "slowdrain" => drive_slowdrain(&mut ctx, &mut rng, thorough),
+            "batchcfg" => drive_batchcfg(&mut ctx, &mut rng, thorough),
             "health" => replayed += drive_health(&mut ctx, &mut rng, inp, thorough),
             "cfgleak" => drive_cfgleak(&mut ctx, &mut rng, &format!("{}.cfgleak", out_path)),
             other => { eprintln!("unknown driver {}", other); std::process::exit(2); }
